@@ -980,4 +980,17 @@ theorem getter_failure_clean' {idx : Nat → Nat} {progs : List (List (List Inst
   obtain ⟨c, _, _, _, _, h4, _⟩ := step_facts (inv_reachable h) hs
   have := h4 k rfl
   exact ⟨this.2.2, by rw [this.2.2]; exact this.2.1⟩
+
+theorem lstep_rmvFail {idx arr cache c ev a' ch' c' k} (h : LStep idx arr cache c ev a' ch' c') (he : ev = .crmvFail k) :
+    c.pc.writeKey = some k ∧ ch' = cache ∧ a' = arr := by
+  cases h <;> simp_all [Pc.writeKey]
+
+theorem rmv_failure_clean' {idx : Nat → Nat} {progs : List (List (List Instr))} {s s' : St} {i k : Nat}
+    (h : Reachable idx progs s) (hs : step idx s i = some (.crmvFail k, s')) :
+    s'.cache = s.cache ∧ s'.arr = s.arr ∧ ∃ c, s.cs[i]? = some c ∧ c.pc.writeKey = some k := by
+  have hI := inv_reachable h
+  obtain ⟨c, a', ch', c', hi, hc, rfl⟩ := step_iff.mp hs
+  have hL := stepC_sound idx s.arr s.cache c c' _ a' ch' hc (hI.book i c hi) (hI.pc i c hi) (hI.stack i c hi)
+  have := lstep_rmvFail hL rfl
+  exact ⟨this.2.1, this.2.2, c, hi, this.1⟩
 end Coba.C19
